@@ -407,6 +407,29 @@ pub fn run_negotiated(local: u32, remote: u32, size: usize, listener: bool) -> R
     })
 }
 
+/// peers that take frames larger than this library's own default (256 KiB), up to no limit at all: transfers
+/// larger than 256 KiB through the real transport, judged by the independent parser only (the lines would be
+/// megabytes long; the model's theorems hold for every size)
+fn large_frames(report: &mut Report) {
+    for &mfs in &[262144usize, 262145, 300000, 1 << 20, u32::MAX as usize] {
+        for &len in &[262100usize, 262144, 300001, 600000] {
+            let case = Case { max_frame_size: mfs, channel: 3, tag_len: 4, payload_len: len, settled: Some(false), more: false, delivery_id: Some(7), rcv_settle_mode: false, batchable: len % 2 == 0, seed: (mfs ^ len) as u64 };
+            report.evaluations += 1;
+            report.count("large_frame_cases");
+            report.nontrivial_case(fnv(&format!("large{}-{}", mfs, len)));
+            let frame = Frame::new(case.channel, FrameBody::Transfer { performative: case.transfer(), payload: Bytes::from(case.payload()) });
+            match write_through_transport(case.max_frame_size, frame) {
+                Ok(wire) => {
+                    if let Some((key, desc)) = check_transfer(&case, &wire) {
+                        report.finding(Finding { kind: "violation", key: format!("{}:peer-takes-large-frames", key), description: format!("peer max-frame-size {}, a transfer with {} payload octets: {}", mfs, len, desc), replay: json!({"property": "C06", "module": "frame", "case": case.to_json()}) });
+                    }
+                }
+                Err(e) => report.finding(Finding { kind: "violation", key: "transport-error:peer-takes-large-frames".into(), description: format!("peer max-frame-size {}, {} payload octets: {}", mfs, len, e), replay: json!({"property": "C06", "module": "frame", "case": case.to_json()}) }),
+            }
+        }
+    }
+}
+
 fn negotiated_sizes(report: &mut Report) {
     for &(local, remote) in &[(512u32, 512u32), (8192, 1024), (1024, 8192), (65536, 600), (600, 65536), (4096, 4095)] {
         for listener in [false, true] {
@@ -473,6 +496,7 @@ pub fn main(opts: &Opts) {
     }
     let n_cases: u64 = if opts.thorough() { 20_000 } else { 1_500 };
     negotiated_sizes(&mut report);
+    large_frames(&mut report);
     let mut rng = Rng::new(opts.seed);
     let mut model_lines: Vec<String> = vec![];
     let mut impl_lines: Vec<String> = vec![];
